@@ -328,11 +328,13 @@ congruence<Number>::operator/(const congruence<Number> &o) const {
   else {
     /*
        aZ+b / 0Z+b':
-          if b'|a then  (a/b')Z + b/b'
-          else          top
+          if b'|a and b'|b then  (a/b')Z + b/b'
+          else                   top
     */
     if (o.m_a == 0) {
-      if (m_a % o.m_b == 0)
+      // The (truncating) division by the constant b' is only exact,
+      // for negative numbers too, if b' divides both a and b.
+      if (m_a % o.m_b == 0 && m_b % o.m_b == 0)
         return congruence<Number>(m_a / o.m_b, m_b / o.m_b);
       else
         return congruence<Number>::top();
